@@ -191,10 +191,45 @@ class Runner:
         self.check_node("ckd", h, {"index": i}, n, h.wid, h.path + (i,))
         self.handles.append(Handle(n, h.path + (i,), h.wid))
 
+    def related_path(self, wid, prev):
+        """A path RELATED to the previous request on the same wallet: one component replaced by a textual extension of
+        itself (1 -> 12), by a textual prefix (120 -> 12), by its hardened / normal twin, or by a neighbour; the last
+        component changed; the path shortened or extended.  (Whatever remembers the previous request must compare whole
+        components, not text.)"""
+        path = list(prev)
+        if not path:
+            return [self.idx(wid)]
+        private = self.world.private(wid)
+        j = self.rnd.randrange(len(path))
+        c = path[j]
+        low, hard = c & (H - 1), c & H
+        how = self.rnd.choice(["extend", "extend", "prefix", "twin", "neighbour", "last", "shorter", "longer"])
+        if how == "extend":
+            v = int(str(low) + self.rnd.choice("0123456789"))
+            path[j] = (v if v < H else low) | hard
+        elif how == "prefix":
+            path[j] = (int(str(low)[:-1]) if len(str(low)) > 1 else low + 1) | hard
+        elif how == "twin" and private:
+            path[j] = c ^ H
+        elif how == "neighbour":
+            path[j] = (low + 1) % H | hard
+        elif how == "last":
+            path[-1] = self.idx(wid)
+        elif how == "shorter":
+            path = path[:-1]
+        elif len(path) < 5:
+            path.append(self.idx(wid))
+        return path
+
     def op_by_path(self):
         wid = self.rnd.choice(["prv", "prv", "pub", "acct"] + self.world.wids)
         L = self.rnd.randrange(0, 6)
         path = [self.idx(wid) for _ in range(L)]
+        last = getattr(self, "_last_by_path", None)
+        if last is not None and self.rnd.random() < 0.45:
+            wid = last[0]
+            path = self.related_path(wid, last[1])
+        self._last_by_path = (wid, list(path))
         s = rpath.fmt(path, self.rnd.choice(["m", "M"]))
         if self.rnd.random() < 0.3:
             s = s.replace("'", "h")
@@ -752,7 +787,7 @@ def preempt_pairs(ctx):
         pairs = [("gen", "ckd_n"), ("ckd_n", "gen"), ("gen", "gen"), ("ckd_h", "ckd_n"), ("addrgen", "ckd_n"), ("by_path", "gen"),
                  ("derive", "ckd_n"), ("gen_pub", "ckd_pub"), ("ckd_pub", "gen_pub"), ("addrgen_pub", "gen_pub"), ("bip85_wif", "gen"),
                  ("gen", "bip85_wif"), ("ext_keys", "ckd_n"), ("bip84", "by_path"), ("derive_pub", "ckd_pub"), ("bip85_hex", "bip85_wif")]
-    return [p for i, p in enumerate(pairs) if ctx.mine(i)]
+    return [p for i, p in enumerate(pairs) if ctx.mine_once(i)]
 
 
 def judge_capacity(ctx, case):
@@ -836,7 +871,7 @@ def run(ctx):
     caps = [("public", (1 << 14) + 600)] if not ctx.thorough else [("public", (1 << 14) + 600), ("private", (1 << 14) + 600), ("public", (1 << 16) + 600),
                                                                  ("private", (1 << 16) + 600), ("public", (1 << 17) + 600)]
     for ci, (kind, n) in enumerate(caps):
-        if ctx.mine(ci + 3):
+        if ctx.mine_once(ci + 3):
             judge_capacity(ctx, {"seed": gen.rbytes(ctx.rnd, 32), "testnet": bool(ci & 1), "kind": kind, "n": n})
 
 
